@@ -31,6 +31,7 @@ pub const PALETTE: &[&str] = &[
     // upper-case spellings of what the extensions react to in lower case
     // labels of undefined footnote references that hold more than text; code blocks with white-space-only lines
     "[^see the\nnote] for details", "[^about `foo`] y", "[^a ![i](u)] z", "```\nfoo\n      \nbar\n```\n", "~~~\n \n\t\n    \nx\n~~~\n", "    a\n     \n    b\n",
+    "```&nbsp;rust ignore\nx\n```\n", "``` \u{a0}x \u{2003}\ny\n```\n", "```\n```\n", "~~~ r\n~~~\n",
     "ORDER AT WWW.EXAMPLE.COM/SHOP NOW", "HTTP://EXAMPLE.COM/X", "MAILTO:A@B.C", "[!note]", "<SCRIPT>", "&AMP;", "&COPY;",
 ];
 
